@@ -6,7 +6,7 @@
 EXTENDS TcpAuthMC, Json
 VARIABLE done
 GenInit == Init /\ done = FALSE
-Quiet   == \A c \in Conns : conn[c].ph \in {"idle", "served", "closed"}
+Quiet   == \A c \in Conns : conn[c].ph \in {"idle", "served", "noresp", "closed"}
 Finish  == Quiet /\ (\A c \in Conns : conn[c].ph # "idle") /\ ~done /\ done' = TRUE /\ UNCHANGED vars
 \* connections are used in order (they are interchangeable)
 InOrder == \A c \in Conns : conn'[c].ph # "idle" /\ conn[c].ph = "idle" => \A d \in Conns : d < c => conn[d].ph # "idle"
